@@ -3,6 +3,7 @@ package eval
 import (
 	"bytes"
 	"fmt"
+	"io"
 	"math"
 	"runtime/debug"
 	"slices"
@@ -828,7 +829,7 @@ func (s *State) applyFunction(name string, fn object.Object, args []object.Objec
 	curState := s.env
 	s.env = nenv
 	oldOut := s.Out
-	buf := bytes.Buffer{}
+	buf := captureWriter{out: oldOut}
 	s.Out = &buf
 	// This is 0 as the env is new, but... we just want to make sure there is
 	// no get() up stack to confirm the function might be cacheable.
@@ -846,6 +847,9 @@ func (s *State) applyFunction(name string, fn object.Object, args []object.Objec
 		if err != nil {
 			log.Warnf("output: %v", err)
 		}
+	}
+	if buf.passedOn {
+		return res // it printed more than is worth remembering (and that was already written): not cached.
 	}
 	if after != before {
 		log.Debugf("Cache miss for %s %v, %d get misses", function.CacheKey, args, after-before)
@@ -876,6 +880,30 @@ func (s *State) applyFunction(name string, fn object.Object, args []object.Objec
 	s.cacheGrew(res, output)
 	log.Debugf("Cache miss for %s %v", function.CacheKey, args)
 	return res
+}
+
+// captureWriter holds what a function call prints, to replay it when the call is served from the cache, up to
+// maxCaptured bytes: beyond that it hands everything on to the real output as it comes (nothing bounds what a loop prints).
+type captureWriter struct {
+	bytes.Buffer
+	out      io.Writer
+	passedOn bool
+}
+
+const maxCaptured = 1 << 20
+
+func (c *captureWriter) Write(p []byte) (int, error) {
+	if !c.passedOn && c.Len()+len(p) <= maxCaptured {
+		return c.Buffer.Write(p)
+	}
+	if !c.passedOn {
+		c.passedOn = true
+		if _, err := c.out.Write(c.Bytes()); err != nil {
+			return 0, err
+		}
+		c.Reset()
+	}
+	return c.out.Write(p)
 }
 
 // What the cache remembers is memory too, and nothing else bounds it: every so many bytes added, it starts over
